@@ -168,21 +168,36 @@ func (p *Prog) FuncOpt(pkg, name string) *ssa.Function {
 		if len(parts) != 2 {
 			return nil
 		}
-		obj := sp.Pkg.Scope().Lookup(parts[0])
-		if obj == nil {
+		nt := p.NamedOpt(pkg, parts[0])
+		if nt == nil {
 			return nil
 		}
+		obj := nt.Obj()
 		var T types.Type = obj.Type()
 		if ptr {
 			T = types.NewPointer(T)
 		}
 		sel := p.SSA.MethodSets.MethodSet(T).Lookup(sp.Pkg, parts[1])
 		if sel == nil {
+			// renamed? (see anchors.go)
+			if nt, ok := obj.Type().(*types.Named); ok {
+				return renamedAnchor(pkg+"."+parts[0]+"."+parts[1], p.methodsOf(nt))
+			}
 			return nil
 		}
 		return p.SSA.MethodValue(sel)
 	}
-	return sp.Func(name)
+	if f := sp.Func(name); f != nil {
+		return f
+	}
+	// renamed? (see anchors.go)
+	var cands []*ssa.Function
+	for _, m := range sp.Members {
+		if f, ok := m.(*ssa.Function); ok {
+			cands = append(cands, f)
+		}
+	}
+	return renamedAnchor(pkg+"."+name, cands)
 }
 
 func (p *Prog) Func(pkg, name string) *ssa.Function {
@@ -195,14 +210,9 @@ func (p *Prog) Func(pkg, name string) *ssa.Function {
 
 // Named returns the named type pkg.name.
 func (p *Prog) Named(pkg, name string) *types.Named {
-	sp := p.Pkg(pkg)
-	obj := sp.Pkg.Scope().Lookup(name)
-	if obj == nil {
+	n := p.NamedOpt(pkg, name)
+	if n == nil {
 		fatalf("anchor: type %s.%s not found", pkg, name)
-	}
-	n, ok := obj.Type().(*types.Named)
-	if !ok {
-		fatalf("anchor: %s.%s is not a named type", pkg, name)
 	}
 	return n
 }
@@ -214,9 +224,13 @@ func (p *Prog) NamedOpt(pkg, name string) *types.Named {
 	}
 	obj := sp.Pkg.Scope().Lookup(name)
 	if obj == nil {
-		return nil
+		// renamed? (anchors.go)
+		return renamedType(sp, pkg, name)
 	}
 	n, _ := obj.Type().(*types.Named)
+	if n != nil {
+		typeLookups[pkg+"."+name] = typeFeatures(n)
+	}
 	return n
 }
 
@@ -256,7 +270,40 @@ func (p *Prog) FieldOpt(pkg, typ, field string) *types.Var {
 	}
 	for i := 0; i < st.NumFields(); i++ {
 		if st.Field(i).Name() == field {
+			fieldLookups[pkg+"."+typ+"."+field] = fieldPrint{Index: i, Type: types.TypeString(st.Field(i).Type(), nil)}
 			return st.Field(i)
+		}
+	}
+	// renamed? the field of the recorded type: the one declared in the same position, else the
+	// only one of that type (anchors.go)
+	if fp, ok := fieldPrints[pkg+"."+typ+"."+field]; ok {
+		// (the position is trusted only while the struct's other recorded fields are where they were:
+		// a reordered struct falls back to the unique-type rule)
+		inPlace := true
+		pre := pkg + "." + typ + "."
+		for k, other := range fieldPrints {
+			if !strings.HasPrefix(k, pre) {
+				continue
+			}
+			for i := 0; i < st.NumFields(); i++ {
+				if st.Field(i).Name() == strings.TrimPrefix(k, pre) && i != other.Index {
+					inPlace = false
+				}
+			}
+		}
+		if inPlace && fp.Index < st.NumFields() && types.TypeString(st.Field(fp.Index).Type(), nil) == fp.Type && !knownFieldName(pkg, typ, st.Field(fp.Index).Name()) {
+			return st.Field(fp.Index)
+		}
+		var only *types.Var
+		n := 0
+		for i := 0; i < st.NumFields(); i++ {
+			if types.TypeString(st.Field(i).Type(), nil) == fp.Type && !knownFieldName(pkg, typ, st.Field(i).Name()) {
+				only = st.Field(i)
+				n++
+			}
+		}
+		if n == 1 {
+			return only
 		}
 	}
 	return nil
